@@ -14,7 +14,7 @@ import (
 
 func TestSim(t *testing.T) {
 	simrt.Main(t, &simrt.Harness{Name: "writer", Body: writer,
-		Cfg: simrt.Config{StallMenu: []time.Duration{time.Millisecond, 100 * time.Millisecond, time.Second}}})
+		Cfg: simrt.Config{StallMenu: []time.Duration{5 * time.Millisecond, 100 * time.Millisecond, time.Second}}})
 }
 
 type world struct {
@@ -89,7 +89,7 @@ func writer(s *simrt.Sim) {
 	w := &world{s: s, store: mapdb.NewMapDB()}
 	qs := s.Choose(4)
 	bs := 1 + s.Choose(3)
-	to := simrt.Knob(s, time.Millisecond, 100*time.Millisecond, time.Second)
+	to := simrt.Knob(s, 5*time.Millisecond, 100*time.Millisecond, time.Second)
 	bw := kvstore.NewBatchedWriter(w.store, kvstore.WithQueueSize(qs), kvstore.WithBatchSize(bs), kvstore.WithBatchTimeout(to))
 	s.Logf("config queue=%d batch=%d timeout=%v", qs, bs, to)
 	nobj := 1 + s.Choose(3)
@@ -97,7 +97,9 @@ func writer(s *simrt.Sim) {
 		w.objs = append(w.objs, &obj{w: w, id: i})
 	}
 	var nextVersion uint64
-	var stopInv, stopRet uint64
+	prodLeft := 0
+	var finalStop func()
+	var firstEnqInv, racingRet uint64
 	nprod := 1 + s.Choose(4)
 	for p := 0; p < nprod; p++ {
 		n := 1 + s.Choose(4)
@@ -109,10 +111,19 @@ func writer(s *simrt.Sim) {
 		for i := range steps {
 			steps[i].obj = s.Choose(nobj)
 			if s.Choose(4) == 3 {
-				steps[i].sleep = simrt.Knob(s, time.Millisecond, 150*time.Millisecond, 2*time.Second)
+				steps[i].sleep = simrt.Knob(s, to/4, to, 3*to)
 			}
 		}
+		prodLeft++
 		s.Go(fmt.Sprintf("producer%d", p), func() {
+			defer func() {
+				if !s.Failed() {
+					prodLeft--
+					if finalStop != nil {
+						finalStop()
+					}
+				}
+			}()
 			for _, st := range steps {
 				if st.sleep > 0 {
 					simrt.Sleep(st.sleep)
@@ -121,6 +132,9 @@ func writer(s *simrt.Sim) {
 				nextVersion++
 				o.version = nextVersion
 				e := &enq{version: o.version, inv: s.Tick()}
+				if firstEnqInv == 0 {
+					firstEnqInv = e.inv
+				}
 				s.Logf("Enqueue obj%d v%d", o.id, e.version)
 				bw.Enqueue(o)
 				e.ret = s.Tick()
@@ -143,10 +157,18 @@ func writer(s *simrt.Sim) {
 	stopDelay := s.Choose(8)
 	stopSleep := time.Duration(0)
 	if s.Choose(3) == 2 {
-		stopSleep = simrt.Knob(s, time.Millisecond, 200*time.Millisecond, 3*time.Second)
+		stopSleep = simrt.Knob(s, to/4, to, 4*to)
 	}
 	stopped := false
-	checkAtStop := func() {
+	checkAtStop := func(stopInv uint64, final bool) {
+		if final {
+			// the racing Stop was certainly a no-op (writer never started) only if no Enqueue had been invoked when it
+			// returned; otherwise it may have stopped the writer for good and later Enqueues are legitimately dropped
+			if !(firstEnqInv == 0 || firstEnqInv > racingRet) {
+				return
+			}
+			s.Probe("final-stop-after-noop-stop")
+		}
 		// every Enqueue that returned before Stop was invoked must be written, committed and done by now
 		for _, o := range w.objs {
 			var need uint64
@@ -167,6 +189,23 @@ func writer(s *simrt.Sim) {
 			}
 		}
 	}
+	doStop := func(what string) {
+		inv := s.Tick()
+		s.Logf("StopBatchWriter (%s)", what)
+		bw.StopBatchWriter()
+		s.Logf("StopBatchWriter returned (%s)", what)
+		if what == "racing" {
+			racingRet = s.Tick()
+		}
+		checkAtStop(inv, what == "final")
+	}
+	// a Stop issued before the first Enqueue is a no-op and a later Enqueue auto-starts the writer: the last task to
+	// finish issues a final Stop so that every run ends with a stopped writer
+	finalStop = func() {
+		if prodLeft == 0 && stopped {
+			doStop("final")
+		}
+	}
 	s.Go("stopper", func() {
 		for i := 0; i < stopDelay; i++ {
 			simrt.Yield()
@@ -174,17 +213,12 @@ func writer(s *simrt.Sim) {
 		if stopSleep > 0 {
 			simrt.Sleep(stopSleep)
 		}
-		stopInv = s.Tick()
-		s.Logf("StopBatchWriter")
-		bw.StopBatchWriter()
-		stopRet = s.Tick()
+		doStop("racing")
 		stopped = true
-		s.Logf("StopBatchWriter returned")
-		checkAtStop()
+		finalStop()
 	})
 	left := s.Quiesce()
 	hx.Stuck(s, "termination", left, nil)
-	_ = stopRet
 	if !stopped {
 		s.Fail("termination", "stop", "stopper did not finish")
 	}
